@@ -207,4 +207,52 @@ def validate_against_real_orbax(schedules, tmp_root):
             real.close()
         finally:
             shutil.rmtree(d, ignore_errors=True)
+    problems += validate_views(tmp_root)
+    return problems
+
+
+def validate_views(tmp_root):
+    """The per-manager facts the model relies on: a save is 'in progress' until its background commit is over (and only
+    in async mode); a manager sees the steps that existed when it was created plus its own saves, a new manager sees all."""
+    import os
+    import shutil
+    import tempfile
+
+    import jax.numpy as jnp
+    import orbax.checkpoint as ocp
+    from ..ckkit import slow_commits
+    problems = []
+    d = tempfile.mkdtemp(prefix="mdpv-orbax-", dir=tmp_root)
+    try:
+        tree = lambda k: {"values": jnp.arange(3.0) + k}
+        for async_ in (True, False):
+            dd = os.path.join(d, f"a{int(async_)}")
+            with slow_commits(0.3):
+                real = ocp.CheckpointManager(dd, options=ocp.CheckpointManagerOptions(max_to_keep=3, create=True, enable_async_checkpointing=async_))
+                Store.reset()
+                model = ModelManager(dd, ModelOptions(max_to_keep=3, enable_async_checkpointing=async_))
+                real.save(1, args=ocp.args.StandardSave(tree(1)))
+                model.save(1, args=StdSave(tree(1)))
+                if bool(real.is_saving_in_progress()) != bool(model.is_saving_in_progress()):
+                    problems.append(f"is_saving_in_progress right after save (async={async_}): real {real.is_saving_in_progress()} model {model.is_saving_in_progress()}")
+                real.wait_until_finished()
+                model.wait_until_finished()
+                if bool(real.is_saving_in_progress()) or bool(model.is_saving_in_progress()):
+                    problems.append(f"is_saving_in_progress after wait (async={async_})")
+            reader = ocp.CheckpointManager(dd, options=ocp.CheckpointManagerOptions(max_to_keep=1, create=True, enable_async_checkpointing=True))
+            mreader = ModelManager(dd, ModelOptions(max_to_keep=1, enable_async_checkpointing=True))
+            real.save(2, args=ocp.args.StandardSave(tree(2)))
+            model.save(2, args=StdSave(tree(2)))
+            real.wait_until_finished()
+            model.wait_until_finished()
+            fresh = ocp.CheckpointManager(dd, options=ocp.CheckpointManagerOptions(max_to_keep=1, create=True, enable_async_checkpointing=True))
+            mfresh = ModelManager(dd, ModelOptions(max_to_keep=1, enable_async_checkpointing=True))
+            got = (reader.latest_step(), fresh.latest_step(), real.latest_step())
+            want = (mreader.latest_step(), mfresh.latest_step(), model.latest_step())
+            if got != want:
+                problems.append(f"latest_step views (old reader, fresh reader, writer): real {got} model {want}")
+            for mg in (real, reader, fresh):
+                mg.close()
+    finally:
+        shutil.rmtree(d, ignore_errors=True)
     return problems
